@@ -273,6 +273,41 @@ def check_limits_and_range(ctx):
             ctx.violate(core.make_violation({'check': 'limits-too-few-points-not-refused', 'end': 'upper' if lim[0] else 'lower'},
                                             f'psd_dft(p_limits={lim}) leaves {inside} point(s) inside the limits but {"returned a fit on indices %s (%d points)" % used if o.ok else o.brief()[:120]} '
                                             f'instead of CalculationError', {'limits': lim}))
+    # the arrays a fit returns belong to the caller: editing them in place (nm -> angstrom, normalising, ...) must not change later fits
+    psd_kernel._LOADED.clear()
+    ref_fit = {order: core.call(psd_dft_kernel_fit, p, load, path, order, timeout=900) for order in (0, 2)}
+    for first_order in (0, 1, 2, 3):
+        for field in (0, 1, 2, 3):
+            psd_kernel._LOADED.clear()
+            r1 = core.call(psd_dft_kernel_fit, p, load, path, first_order, timeout=900)
+            if not r1.ok:
+                continue
+            arr = r1.value[field]
+            if isinstance(arr, numpy.ndarray) and arr.flags.writeable:
+                arr *= 10.0
+                arr[0] = -1.0
+            for order in (0, 2):
+                r2 = core.call(psd_dft_kernel_fit, p, load, path, order, timeout=900)
+                ev += 1
+                nt += 1
+                if ref_fit[order].ok and (not r2.ok or any(not numpy.array_equal(numpy.asarray(a_), numpy.asarray(b_)) for a_, b_ in zip(r2.value, ref_fit[order].value))):
+                    ctx.violate(core.make_violation({'check': 'returned-array-aliases-internal-state', 'field': ['pore_widths', 'pore_distribution', 'pore_volume_cumulative', 'kernel_loading'][field]},
+                                                    f'after the {["pore_widths", "pore_distribution", "pore_volume_cumulative", "kernel_loading"][field]} array returned by a fit (spline order {first_order}) '
+                                                    f'was edited in place by the caller, a new fit (order {order}) reports widths {list(numpy.asarray(r2.value[0])[:3]) if r2.ok else r2.brief()[:100]} '
+                                                    f'instead of {list(numpy.asarray(ref_fit[order].value[0])[:3])}', {}))
+    psd_kernel._LOADED.clear()
+    # exactly repeated pressure readings inside the limits are points like any other
+    pr2 = numpy.sort(numpy.concatenate([p, p[[10, 22]]]))
+    ld2 = numpy.interp(pr2, p, load)
+    ld2[numpy.searchsorted(pr2, p[10])] *= 1.02       # the two readings at one pressure need not agree
+    o = core.call(pgc.psd_dft, pygaps.PointIsotherm(pressure=pr2, loading=ld2, material='c18', adsorbate='N2', temperature=77.355, **U), p_limits=(mids[0], mids[4]), bspline_order=0, timeout=900)
+    ev += 1
+    nt += 1
+    inside = [i for i, q_ in enumerate(pr2) if mids[0] < q_ < mids[4]]
+    if not o.ok or len(o.value['kernel_loading']) != len(inside) or tuple(o.value['limits']) != (inside[0], inside[-1]):
+        ctx.violate(core.make_violation({'check': 'repeated-pressures-dropped'},
+                                        f'psd_dft on an isotherm with two exactly repeated pressure readings: {len(inside)} points lie inside the limits (indices {inside[0]}..{inside[-1]}) but the fit '
+                                        f'{"reports %d fitted points, limits %s" % (len(o.value["kernel_loading"]), o.value["limits"]) if o.ok else o.brief()[:120]}', {}))
     # kernel_units given once must not become the defaults of later calls (and the caller's dict stays as it was)
     fd = os.path.join(d2, 'kernel_cm3stp.csv')
     (raw * 22.414).to_csv(fd)
